@@ -7,12 +7,17 @@ ITEM_TABLES = [
     {"k1": "s", "k2": "t['b']", "k3": 'q"uote', "k4": "b", "k5": ".a", "k6": 0, "k7": -1, "k8": -2.5, "k9": (1, ("b", 2))},
     {"k1": "1", "k2": 1, "k3": "-7", "k4": -7, "k5": "1.5", "k6": 15, "k7": "('a', 1)", "k8": 0.5, "k9": ("a", "1")},
     {"k1": "", "k2": " ", "k3": "a'", "k4": "a\\", "k5": "s.a", "k6": 2 ** 70, "k7": -(2 ** 70), "k8": 1e-30, "k9": ()},
+    # a key next to the one-element tuple holding it (and the text of both)
+    {"k1": 1, "k2": (1,), "k3": "1", "k4": ((1,),), "k5": (1, 1), "k6": "(1,)", "k7": -1, "k8": (-1,), "k9": ("1",)},
+    {"k1": "a", "k2": ("a",), "k3": "('a',)", "k4": 2.5, "k5": (2.5,), "k6": None, "k7": (None,), "k8": "None", "k9": ((),)},
 ]
 ATTR_TABLES = [
     {"a1": "a", "a2": "b", "a3": "_x1"},
     {"a1": "s", "a2": "t", "a3": "a_b"},
     {"a1": "k", "a2": "a1", "a3": "é"},
     {"a1": "x", "a2": "xx", "a3": "X"},
+    {"a1": "a", "a2": "b", "a3": "_x1"},
+    {"a1": "s", "a2": "t", "a3": "a_b"},
 ]
 
 
